@@ -300,6 +300,14 @@ impl ZchState {
                 return kb.press_key(osc);
             }
             osc if osc.is_zippy_ignored() => {
+                if matches!(osc, OsCode::KEY_BACKSPACE | OsCode::KEY_DELETE) {
+                    // The user edits the text themself: what zippychord typed earlier is no
+                    // longer known to be in front of the cursor. Following punctuation must not
+                    // erase a smart space that may be gone, and a follow-up chord must not erase
+                    // the characters of an earlier activation.
+                    self.zchd.zchd_smart_space_state = ZchSmartSpaceState::Inactive;
+                    self.zchd.zchd_clear_history();
+                }
                 return kb.press_key(osc);
             }
             _ => {}
